@@ -17,9 +17,9 @@
  *        4  the shared tree is parsed from LYB instead of XML
  *        8  LY_LOSTORE instead of LY_LOSTORE_LAST
  *       32  private trees: create a leaf-list instance with lyd_new_path(path without predicate, value) — the one place that
- *           bumps the compiled type's reference count non-atomically (finding F51); otherwise the predicate form is used
+ *           bumps the compiled type's reference count non-atomically (finding F73); otherwise the predicate form is used
  *       16  the shared tree contains union-typed leaves (`u`, and `ip`: inet:ip-address is a union).  Printing such a
- *           value as LYB frees and re-stores the stored member value (lyb_union_print): finding F50
+ *           value as LYB frees and re-stores the stored member value (lyb_union_print): finding F72
  *   -> ok <N> <equal> <mismatching thread ids|-> <ops per thread> <wrong-error-records> <surplus-dict-refs> <digest thread 0>
  *
  * The N scripts are first run concurrently on context A (all threads released by a barrier), then the same N scripts are
@@ -171,7 +171,7 @@ do_private(struct work *k, int it)
     snprintf(path, sizeof path, "/vq:c/li[k='n%d']/v", k->id);
     dgi(k, lyd_new_path(t, ctx, path, "5", 0, NULL));
     if (k->flags & 32) {
-        /* leaf-list instance by value argument: lyd_new_path_check_find_lypath() takes a reference to the compiled type (F51) */
+        /* leaf-list instance by value argument: lyd_new_path_check_find_lypath() takes a reference to the compiled type (F73) */
         dgi(k, lyd_new_path(t, ctx, "/vq:c/l", (it % 2) ? "200" : "100", 0, NULL));
     } else {
         dgi(k, lyd_new_path(t, ctx, (it % 2) ? "/vq:c/l[.='200']" : "/vq:c/l[.='100']", NULL, 0, NULL));
